@@ -48,4 +48,6 @@ extern struct op_entry ops_dump[];
 void dump_reset(void);
 extern struct op_entry ops_tmpltext[];
 void tmpltext_reset(void);
+extern struct op_entry ops_switch[];
+void switch_reset(void);
 #endif
